@@ -452,14 +452,17 @@ def replay(data):
     inp = data["input"]
     fails, chain, snaps = run_chain(inp["base"], inp["calls"])
     kind = data.get("function", "").split(":")[0]
-    if kind.startswith("copy") and not [f for f in fails if f[0] != "rejected"]:
+    if kind.startswith("copy") and not (fails and fails[-1][0] == "rejected"):
         cf = copies(chain[-1], snaps[-1])
         fails += [("copy[%s].%s" % (h, wc), len(inp["calls"]), "%s: %s" % (h, d), p) for h, wc, d, p in cf]
     real = [f for f in fails if f[0] != "rejected"]
-    if real:
-        print("REPLAY-FAILS C03 base=%s calls=%s: %s" % (json.dumps(inp["base"])[:200], json.dumps(inp["calls"])[:300], real[0][2]))
-        if real[0][3]:
-            print("  " + json.dumps(real[0][3])[:600])
+    same = [f for f in real if f[0] == kind] if kind else real
+    other = sorted({f[0] for f in real if f not in same})
+    if same:
+        print("REPLAY-FAILS C03 %s base=%s calls=%s: %s" % (same[0][0], json.dumps(inp["base"])[:200], json.dumps(inp["calls"])[:300], same[0][2]))
+        if same[0][3]:
+            print("  " + json.dumps(same[0][3])[:600])
         return 1
-    print("REPLAY-PASSES C03 %d calls applied%s, every ancestor unchanged, snapshots stable" % (len(chain) - 1, " (a call was rejected: %s)" % fails[0][2] if fails else ""))
+    print("REPLAY-PASSES C03 clause %r holds over the %d calls%s%s" % (kind, len(chain) - 1, " (a call was rejected: %s)" % fails[0][2] if fails and fails[0][0] == "rejected" else "",
+                                                                    "; other clause classes firing on this chain (see known findings): %s" % other if other else ""))
     return 0
